@@ -38,7 +38,7 @@ CHECKS.update({
  "C04": dict(cat="exploration", engine="chanmc+explore (in-package contractcourt)",
    technique="explicit-state exploration of the real LightningChannel pair; the harness plays the cheater by snapshotting each party's broadcastable txs, and the victim's NewBreachRetribution -> newRetributionInfo -> RetributionStore round trip -> createJusticeTx output is executed input by input in txscript.Engine against the real revoked and second-level outputs",
    text="Bounded exhaustive enumeration (deviation-bounded and full interleavings, a reload at every point) of real two-peer histories on all 7 channel types; every revoked height is judged from persisted state: state hint, recorded indexes/amounts, ErrRevLogDataMissing exactly when specified, and script-interpreter validity of every justice input incl. second-level conversions.",
-   note="One listed finding (lease channel, victim is opener: to_remote CLTV vs nLockTime 0). Justice fee/weight not judged; chain watcher dispatch itself not driven; <=3 HTLCs, one fee update, 2 reconnects.", ref="§4 C04"),
+   note="One listed finding (lease channel, victim is opener: to_remote CLTV vs nLockTime 0). Justice fee/weight not judged; chain watcher breach dispatch driven through a real chainWatcher with stale handles (close-summary content of non-breach closes is C05/C12); <=3 HTLCs, one fee update, 2 reconnects.", ref="§4 C04"),
  "C05": dict(cat="exploration", engine="chanmc+explore",
    technique="explicit-state exploration of the real LightningChannel pair (chanmc); per distinct state the node's ForceClose / NewUnilateralCloseSummary resolutions are turned into the resolvers' sweep inputs and executed in the btcd script interpreter against true prevouts, with one-block-early negative controls and a claimable-value equation from the explorer's HTLC table",
    text="Every distinct reachable state of the bounded two-peer scripts (all 7 channel types, both roles, mid-dance pending commitments, reloads) x {own, peer-current, peer-pending} close is judged by the script interpreter on every commitment, second-level and sweep input.",
